@@ -41,6 +41,9 @@ def rsa_pool(rng):
   pool.append(('smooth', sp * q))
   pool.append(('lowweight', gen_rsa.low_weight_prime(rng, 256, 4) * gen_rsa.low_weight_prime(rng, 256, 4)))
   pool.extend(gen_rsa.degenerate(rng, 256)[:4])
+  # keys that are only factored with a LARGE pattern size, to be checked after shorter keys
+  pool.append(('pattern63@512', gen_rsa.pattern_prime(rng, 256, 63, lowbits=16) * gen_rsa.rprime(rng, 256)))
+  pool.append(('pattern127@1024', gen_rsa.pattern_prime(rng, 512, 127, lowbits=16) * gen_rsa.rprime(rng, 512)))
   return pool
 
 
@@ -65,6 +68,10 @@ def correspondence(rep, rng, tier):
       for round_ in range(3 if tier == 'quick' else 8):
         sub = rng.sample(pool, rng.randrange(2, len(pool) + 1))
         rng.shuffle(sub)
+        if round_ == 0:
+          sub = sorted(pool, key=lambda t: t[1].bit_length())        # shortest first
+        elif round_ == 1:
+          sub = sorted(pool, key=lambda t: -t[1].bit_length())       # longest first
         keys = [art.rsa_key(n) for _, n in sub]
         chk.Check(keys)
         for (tag, n), k in zip(sub, keys):
